@@ -10,6 +10,7 @@ DEFS="-DENABLE_LOCALES -DCJSON_VERIF_HOOKS"
 case $FL in
   asan)  CC=gcc;   CF="-O1 -g -fno-omit-frame-pointer -fsanitize=address,undefined -fno-sanitize-recover=all" ;;
   plain) CC=gcc;   CF="-O2 -g -fno-omit-frame-pointer" ;;
+  efence) CC=gcc;  CF="-O2 -g -fno-omit-frame-pointer -DCJV_EFENCE=1" ;;
   cov)   CC=gcc;   CF="-O0 -g --coverage" ;;
   msan)  CC=clang; CF="-O1 -g -fno-omit-frame-pointer -fsanitize=memory -fsanitize-memory-track-origins" ;;
   tsan)  CC=gcc;   CF="-O1 -g -fno-omit-frame-pointer -fsanitize=thread" ;;
